@@ -1,1 +1,285 @@
-// placeholder
+//! Regional parameters (RP002-1.0.3) for the nine regions the crate supports, as data derived from
+//! the specification's formulas where it gives formulas. Where RP002 revisions differ a cell holds
+//! a *set* of admissible values; `None` means "don't care" (never an alarm).
+
+#[derive(Debug, Clone, Copy, PartialEq, Eq, Hash)]
+pub enum Reg {
+    Eu868,
+    Eu433,
+    In865,
+    As923(u8), // group 1..=4
+    Us915,
+    Au915,
+}
+
+impl Reg {
+    pub fn from_name(s: &str) -> Option<Reg> {
+        Some(match s {
+            "EU868" => Reg::Eu868,
+            "EU433" => Reg::Eu433,
+            "IN865" => Reg::In865,
+            "AS923_1" => Reg::As923(1),
+            "AS923_2" => Reg::As923(2),
+            "AS923_3" => Reg::As923(3),
+            "AS923_4" => Reg::As923(4),
+            "US915" => Reg::Us915,
+            "AU915" => Reg::Au915,
+            _ => return None,
+        })
+    }
+    pub fn fixed(self) -> bool {
+        matches!(self, Reg::Us915 | Reg::Au915)
+    }
+
+    /// AS923 group frequency offset in Hz (subtracted)
+    pub fn as923_offset(self) -> u32 {
+        match self {
+            Reg::As923(2) => 1_800_000,
+            Reg::As923(3) => 6_600_000,
+            Reg::As923(4) => 5_900_000,
+            _ => 0,
+        }
+    }
+
+    /// band limits used for "frequency belongs to the region's band" (inclusive)
+    pub fn band(self) -> (u32, u32) {
+        match self {
+            Reg::Eu868 => (863_000_000, 870_000_000),
+            Reg::Eu433 => (433_050_000, 434_790_000),
+            Reg::In865 => (865_000_000, 867_000_000),
+            Reg::As923(4) => (917_000_000, 920_000_000),
+            Reg::As923(_) => (915_000_000, 928_000_000),
+            Reg::Us915 => (902_000_000, 928_000_000),
+            Reg::Au915 => (915_000_000, 928_000_000),
+        }
+    }
+
+    /// LoRa data rates RP002 defines: (SF, bandwidth Hz). FSK / LR-FHSS / RFU -> None.
+    pub fn dr(self, dr: u8) -> Option<(u8, u32)> {
+        let k125 = |sf| Some((sf, 125_000));
+        match self {
+            Reg::Eu868 | Reg::Eu433 | Reg::As923(_) => match dr {
+                0..=5 => k125(12 - dr),
+                6 => Some((7, 250_000)),
+                _ => None,
+            },
+            Reg::In865 => match dr {
+                0..=5 => k125(12 - dr),
+                _ => None,
+            },
+            Reg::Us915 => match dr {
+                0..=3 => k125(10 - dr),
+                4 => Some((8, 500_000)),
+                8..=13 => Some((20 - dr, 500_000)),
+                _ => None,
+            },
+            Reg::Au915 => match dr {
+                0..=5 => k125(12 - dr),
+                6 => Some((8, 500_000)),
+                8..=13 => Some((20 - dr, 500_000)),
+                _ => None,
+            },
+        }
+    }
+
+    /// data rates an end-device may use for uplinks
+    pub fn is_uplink_dr(self, dr: u8) -> bool {
+        self.dr(dr).is_some() && !(self.fixed() && dr >= 8)
+    }
+
+    pub fn dr_of(self, sf: u8, bw_hz: u32, uplink: bool) -> Option<u8> {
+        (0..16u8).find(|d| self.dr(*d) == Some((sf, bw_hz)) && (!uplink || self.is_uplink_dr(*d)) && (uplink || !self.fixed() || *d >= 8 || self.dr(*d).map(|x| x.1) != Some(500_000) || true))
+    }
+
+    /// downlink data rate with these parameters (fixed plans: the 500 kHz DR8..13 family first)
+    pub fn downlink_dr_of(self, sf: u8, bw_hz: u32) -> Option<u8> {
+        if self.fixed() {
+            if let Some(d) = (8..=13u8).find(|d| self.dr(*d) == Some((sf, bw_hz))) {
+                return Some(d);
+            }
+        }
+        (0..16u8).find(|d| self.dr(*d) == Some((sf, bw_hz)))
+    }
+
+    /// admissible maximum MACPayload sizes M (no repeater, no dwell-time limit); a received PHY
+    /// payload fits when len <= M + 5
+    pub fn max_payload(self, dr: u8) -> Option<&'static [u8]> {
+        match self {
+            Reg::Eu868 | Reg::Eu433 => match dr {
+                0..=2 => Some(&[59]),
+                3 => Some(&[123]),
+                4..=6 => Some(&[250]),
+                _ => None,
+            },
+            Reg::In865 => match dr {
+                0..=2 => Some(&[59]),
+                3 => Some(&[123]),
+                4..=5 => Some(&[250]),
+                _ => None,
+            },
+            Reg::As923(_) => match dr {
+                0..=1 => Some(&[59]),
+                2 => Some(&[59, 123]),
+                3 => Some(&[123]),
+                4..=6 => Some(&[250]),
+                _ => None,
+            },
+            Reg::Us915 => match dr {
+                0 => Some(&[19]),
+                1 => Some(&[61]),
+                2 => Some(&[133]),
+                3 | 4 => Some(&[250]),
+                8 => Some(&[61]),
+                9 => Some(&[137]),
+                10..=13 => Some(&[250]),
+                _ => None,
+            },
+            Reg::Au915 => match dr {
+                0..=2 => Some(&[59]),
+                3 => Some(&[123]),
+                4..=6 => Some(&[250]),
+                8 => Some(&[61]),
+                9 => Some(&[137]),
+                10..=13 => Some(&[250]),
+                _ => None,
+            },
+        }
+    }
+
+    pub fn max_rx1_offset(self) -> u8 {
+        match self {
+            Reg::Eu868 | Reg::Eu433 | Reg::Au915 => 5,
+            Reg::In865 | Reg::As923(_) => 7,
+            Reg::Us915 => 3,
+        }
+    }
+
+    /// admissible RX1 data rates for (uplink DR, RX1DROffset); None = don't care.
+    pub fn rx1_dr(self, up: u8, off: u8) -> Option<Vec<u8>> {
+        if !self.is_uplink_dr(up) || off > self.max_rx1_offset() {
+            return None;
+        }
+        match self {
+            Reg::Eu868 | Reg::Eu433 => Some(vec![up.saturating_sub(off)]),
+            Reg::Us915 => Some(vec![(10 + up as i32 - off as i32).clamp(8, 13) as u8]),
+            Reg::Au915 => Some(vec![(8 + up as i32 - off as i32).clamp(8, 13) as u8]),
+            Reg::As923(_) | Reg::In865 => {
+                if off <= 5 {
+                    Some(vec![up.saturating_sub(off)])
+                } else {
+                    // effective offsets -1 / -2: the result is capped at DR5 in older RP002 revisions
+                    // and at DR7 in newer ones; DR6/DR7 may be RFU/FSK. Any LoRa data rate the region
+                    // defines between min(up+k,5) and 7 is admissible.
+                    let k = off - 5;
+                    let raw = up + k;
+                    let mut v: Vec<u8> = vec![raw.min(5)];
+                    for d in [raw.min(7), raw.min(6)] {
+                        if self.dr(d).is_some() && !v.contains(&d) {
+                            v.push(d);
+                        }
+                    }
+                    // whatever the cap, a region-defined LoRa rate is required; when the tabulated
+                    // rate is FSK/RFU the crate may fall back: accept every defined rate >= min
+                    let lo = *v.iter().min().unwrap();
+                    for d in lo..=7 {
+                        if self.dr(d).is_some() && !v.contains(&d) && raw > 5 {
+                            v.push(d);
+                        }
+                    }
+                    if raw > 5 {
+                        // fallback of an unimplemented rate to the RX2 data rate is also tolerated
+                        let r2 = self.rx2_default().1;
+                        if !v.contains(&r2) {
+                            v.push(r2);
+                        }
+                    }
+                    Some(v)
+                }
+            }
+        }
+    }
+
+    /// (frequency Hz, data rate)
+    pub fn rx2_default(self) -> (u32, u8) {
+        match self {
+            Reg::Eu868 => (869_525_000, 0),
+            Reg::Eu433 => (434_665_000, 0),
+            Reg::In865 => (866_550_000, 2),
+            Reg::As923(_) => (923_200_000 - self.as923_offset(), 2),
+            Reg::Us915 | Reg::Au915 => (923_300_000, 8),
+        }
+    }
+
+    /// EIRP in dBm of TXPower index `idx` (None: index not defined for the region)
+    pub fn tx_power_eirp(self, idx: u8) -> Option<i32> {
+        let max_idx = match self {
+            Reg::Eu868 | Reg::As923(_) => 7,
+            Reg::Eu433 => 5,
+            Reg::In865 => 10,
+            Reg::Us915 | Reg::Au915 => 14,
+        };
+        if idx > max_idx {
+            return None;
+        }
+        Some(self.max_eirp_floor() - 2 * idx as i32)
+    }
+
+    /// regional default MaxEIRP, rounded down to an integer dBm (EU433: 12.15 dBm)
+    pub fn max_eirp_floor(self) -> i32 {
+        match self {
+            Reg::Eu868 | Reg::As923(_) => 16,
+            Reg::Eu433 => 12,
+            Reg::In865 | Reg::Us915 | Reg::Au915 => 30,
+        }
+    }
+
+    pub fn valid_chmask_cntl(self) -> &'static [u8] {
+        if self.fixed() {
+            &[0, 1, 2, 3, 4, 5, 6, 7]
+        } else {
+            &[0, 6]
+        }
+    }
+
+    // ---- dynamic plans
+    pub fn default_channels(self) -> Vec<u32> {
+        match self {
+            Reg::Eu868 => vec![868_100_000, 868_300_000, 868_500_000],
+            Reg::Eu433 => vec![433_175_000, 433_375_000, 433_575_000],
+            Reg::In865 => vec![865_062_500, 865_402_500, 865_985_000],
+            Reg::As923(_) => vec![923_200_000 - self.as923_offset(), 923_400_000 - self.as923_offset()],
+            _ => vec![],
+        }
+    }
+
+    // ---- fixed plans
+    pub fn uplink_freq(self, ch: usize) -> Option<u32> {
+        match self {
+            Reg::Us915 if ch < 64 => Some(902_300_000 + 200_000 * ch as u32),
+            Reg::Us915 if ch < 72 => Some(903_000_000 + 1_600_000 * (ch as u32 - 64)),
+            Reg::Au915 if ch < 64 => Some(915_200_000 + 200_000 * ch as u32),
+            Reg::Au915 if ch < 72 => Some(915_900_000 + 1_600_000 * (ch as u32 - 64)),
+            _ => None,
+        }
+    }
+    pub fn channel_of_uplink_freq(self, f: u32) -> Option<usize> {
+        (0..72).find(|c| self.uplink_freq(*c) == Some(f))
+    }
+    pub fn downlink_freq(self, ch: usize) -> Option<u32> {
+        if self.fixed() && ch < 72 {
+            Some(923_300_000 + 600_000 * (ch as u32 % 8))
+        } else {
+            None
+        }
+    }
+    /// admissible join data rates on a fixed-plan channel
+    pub fn fixed_join_drs(self, ch: usize) -> Vec<u8> {
+        match (self, ch < 64) {
+            (Reg::Us915, true) => vec![0],
+            (Reg::Us915, false) => vec![4],
+            (Reg::Au915, true) => vec![0, 2],
+            (Reg::Au915, false) => vec![6],
+            _ => vec![],
+        }
+    }
+}
